@@ -26,6 +26,8 @@ LEVEL = "exploration"
 RULE = (
     "programs = recording callable (unsafe / alters_data method, function, static and class method, callable object, "
     "class; markers held in the instance dict, on the class, inherited, as a property, in __slots__ or served by __getattr__; "
+    "callables flagged alters_data / unsafe_callable only after a first safe use; C-implemented builtin functions and "
+    "bound methods rejected by name by the overriding environment (effect on the data observed); "
     "name-based rejection by an overridden is_safe_callable; safe controls; reached by name, attribute, "
     "subscript, attr filter, map(attribute), container element, nested object) x call path (direct, set/with alias, "
     "macro positional/keyword/default/varargs/kwargs argument, enclosing scope of a macro, call-block target with and "
@@ -35,7 +37,9 @@ RULE = (
     "expressions, loop.cycle, returned by another call, argument of filters/tests/calls/macros, if/for/set/with/filter "
     "block/autoescape/do positions, blocks and self.block(), included template, imported macro, child block and "
     "super()) x argument shape (none, positional, keyword, *args, **kwargs) x reachability wrapper (if/else/elif, "
-    "empty loop, loop else, filtered loop) x {default, overriding is_safe_callable} x {sync, async}; quick: all path x "
+    "empty loop, loop else, filtered loop) x safe calls made before the call site (safe bound-method calls on the same "
+    "object directly / in a loop / through a macro, earlier renders on the same environment object) x "
+    "{default, overriding is_safe_callable} x {sync, async}; quick: all path x "
     "callable x environment combinations are enumerated with rotating argument shapes and wrappers, plus Hypothesis "
     "draws from the full product; thorough: the full product, also with two nested wrappers, is enumerated.  Non-trivial = the call site is reached, the environment deems the callable unsafe, and "
     "the callable arrives through at least one level of indirection; distinct = distinct case."
@@ -44,7 +48,8 @@ ASSUMPTIONS = [
     "reachability of the call site is known by construction of the wrapper (if yes/no, empty / non-empty loops), not computed by the engine",
     "an object wrapping an unsafe callable without exposing unsafe_callable / alters_data (e.g. functools.partial) is deemed safe by the sandbox and is outside the property",
     "a harness-defined filter that itself calls its argument is outside the property (not a call written in the template)",
-    "which callables are unsafe per environment is a table in the harness: @unsafe and alters_data=True always; names starting with 'delete' only under the overriding environment",
+    "which callables are unsafe per environment is a table in the harness: @unsafe and alters_data=True always (from the moment the marker is set); names starting with 'delete' and the listed builtin names only under the overriding environment",
+    "builtin callables are only used with the overriding environment (under the default policy they are allowed and would really run with arbitrary arguments)",
 ]
 
 _st = {}
@@ -59,7 +64,8 @@ def _setup():
 
     class Override(SandboxedEnvironment):
         def is_safe_callable(self, obj):
-            if getattr(obj, "__name__", "").startswith("delete"):
+            name = getattr(obj, "__name__", "")
+            if name.startswith("delete") or name in g.BUILTIN_REJECTED_NAMES:
                 return False
             return super().is_safe_callable(obj)
 
@@ -100,6 +106,13 @@ def make_world():
         def ok(self, *a, **k):
             return rec("ok", a, k)
 
+        def ping(self, *a, **k):
+            return rec("ping", a, k)
+
+        def late(self, *a, **k):
+            type(self).late.alters_data = True  # safe when first used, flagged from then on
+            return rec("late", a, k)
+
         @unsafe
         def aboom(self, *a, **k):
             rec("aboom", a, k)
@@ -133,6 +146,10 @@ def make_world():
 
     def delete_fn(*a, **k):
         return rec("delete_fn", a, k)
+
+    def late_fn(*a, **k):
+        late_fn.alters_data = True
+        return rec("late_fn", a, k)
 
     def sfn(*a, **k):
         return rec("sfn:" + (str(a[0]) if a and isinstance(a[0], str) and a[0] in ("pre", "post") else "x"), a, k)
@@ -216,6 +233,11 @@ def make_world():
     class Box2(Box):
         pass
 
+    class LateObj(CallObj):
+        def __call__(self, *a, **k):
+            self.unsafe_callable = True
+            return rec(self._name, a, k)
+
     Box.inherited_boom = unsafe(lambda self, *a, **k: rec("inherited_boom", a, k))
     u = Box2()
     u.child = Box("child.")
@@ -232,7 +254,14 @@ def make_world():
         "sfn2": sfn2, "uobj": uobj, "aobj": aobj, "UCls": UCls, "aboom": u.aboom, "static_boom": u.static_boom,
         "class_wipe": u.class_wipe, "child.boom": u.child.boom, "inherited_boom": u.inherited_boom,
     }
+    import os
+
+    bl, bd, bs = [0], {"a": 1}, "abc"
+    late_obj = LateObj("late_obj")
+    extra.update({"late_fn": late_fn, "late_obj": late_obj, "bl": bl, "bd": bd, "bs": bs, "getcwd": os.getcwd, "blen": len})
     table.update(extra)
+    table.update({"late": u.late, "bl.append": bl.append, "bl.extend": bl.extend, "bd.clear": bd.clear, "bd.update": bd.update,
+                  "bd.pop": bd.pop, "bs.upper": bs.upper})
     ctx = {
         "u": u, "ufn": ufn, "afn": afn, "delete_fn": delete_fn, "sfn": sfn, "sfn2": sfn2, "uobj": uobj, "aobj": aobj,
         "UCls": UCls, "cd": {"f": ufn, "d": delete_fn}, "cl": [afn], "yes": True, "no": False,
@@ -242,7 +271,7 @@ def make_world():
 
 
 def blocked(marking, envkind):
-    return marking in ("unsafe", "alters") or (marking == "delete" and envkind == "override")
+    return marking in ("unsafe", "alters", "late") or (marking in ("delete", "builtin") and envkind == "override")
 
 
 # --- structural oracle: every call of a template value goes through environment.call ------------
@@ -287,17 +316,36 @@ def check_case(case):
     ctx, log, table = make_world()
     for cname, pyname in (case.get("ctxbind") or {}).items():
         ctx[cname] = table[pyname]  # the recorder is a context variable with an engine-special name
+    for prior in case.get("prior") or ():
+        g.render(env, prior, ctx)  # earlier renders on the same environment: safe calls only
+    prior_log = list(log)
+    del log[:]
     try:
         out, err = g.render(env, src, ctx), None
     except s["SecurityError"] as e:
         out, err = None, e
+    except (TypeError, KeyError, ValueError) as e:
+        if marking != "builtin":
+            raise
+        # a C-implemented callable complaining about its arguments has been called
+        raise core.Violation("builtin callable rejected by the overriding is_safe_callable was called (it raised %s: %s)%s" % (type(e).__name__, e, where))
     called = [e for e in log if e[0] == name]
     names = [e[0] for e in log]
     # no callable the environment deems unsafe may ever run, whichever one the case is about
-    unsafe_py = {pyname for pyname, mk in g.CALLABLES.values() if blocked(mk, case["env"])}
+    unsafe_py = {pyname for pyname, mk in g.CALLABLES.values() if blocked(mk, case["env"]) and mk != "late"}
     ran_unsafe = [e for e in log if e[0] in unsafe_py]
     if ran_unsafe:
         raise core.Violation("unsafe callable was invoked: %r (log %r)%s" % (ran_unsafe[:3], log[:6], where))
+    if marking == "late":
+        # exactly the one first use (made by the prelude) may have run
+        n_late = len([e for e in prior_log + log if e[0] == name])
+        if n_late != 1:
+            raise core.Violation("callable flagged alters_data after its first use ran %d times (expected once) (log %r)%s" % (n_late, (prior_log + log)[:8], where))
+        called = [] if not reached else called
+    if marking == "builtin" and (ctx["bl"] != [0] or ctx["bd"] != {"a": 1}):
+        raise core.Violation("builtin method rejected by the overriding is_safe_callable ran: bl=%r bd=%r%s" % (ctx["bl"], ctx["bd"], where))
+    if case.get("prelude") and not [e for e in prior_log + log if e[0] in ("ping", name)]:
+        raise core.Violation("the safe calls preceding the call site did not run (log %r)%s" % ((prior_log + log)[:6], where))
     if "sfn:pre" not in names:
         raise core.Violation("the safe call before the call site did not run (log %r)%s" % (log[:6], where))
     if reached and is_blocked:
@@ -320,6 +368,7 @@ def check_case(case):
         "blocked" if is_blocked else "allowed",
         "levels_%d" % min(case["levels"], 3),
         "path_" + case["path"],
+        "prelude_" + case.get("prelude", "none"),
     ]
     return core.Outcome(nontrivial, labels)
 
@@ -343,7 +392,7 @@ def run_shard(spec, ctx):
 def floors(total, tier):
     lab = total.labels
     for k in ("default_sync", "default_async", "override_sync", "override_async", "mark_unsafe", "mark_alters", "mark_delete",
-              "mark_safe", "unreached", "levels_2"):
+              "mark_safe", "mark_late", "mark_builtin", "unreached", "levels_2", "prelude_prior_render", "prelude_method_before"):
         if lab.get(k, 0) < 200:
             return "class %s has only %d cases" % (k, lab.get(k, 0))
     missing = [p for p in g.CALL_PATHS if lab.get("path_" + p, 0) < 20]
